@@ -30,5 +30,5 @@ Competing ==
                           /\ (a.sh.ty = "U") = (b.sh.ty = "U")
   \/ \E a, b \in store : a.pub /\ ~b.pub
 
-EmitC02 == PrintT("CASE " \o ToJson([ops |-> OpsJson, res |-> res, na |-> IF Competing THEN 1 ELSE 0]))
+EmitC02 == PrintT("CASE " \o ToJson([ops |-> OpsJson, res |-> res, ao |-> AoNow, na |-> IF Competing THEN 1 ELSE 0]))
 =============================================================================
